@@ -26,6 +26,16 @@ package handshake
 //@   ensures isfresh(result0) || result0 == nil
 //@   modifies nothing
 
+// crypto/cipher.AEAD as documented: Seal and Open append to dst and write nothing else
+//@ iface (a cipher.AEAD) Seal
+//@   modifies dst[*]
+//@ iface (a cipher.AEAD) Open
+//@   modifies dst[*]
+//@ iface (a cipher.AEAD) Overhead
+//@   modifies nothing
+//@ iface (a cipher.AEAD) NonceSize
+//@   modifies nothing
+
 // ---------------- key updates (C05) ----------------
 //@ extern (r encoding/binary.bigEndian) PutUint64
 //@   requires len(b) >= 8
@@ -97,7 +107,7 @@ package handshake
 //@            a.rcvAEAD == old(a.rcvAEAD) && a.nextRcvAEAD == old(a.nextRcvAEAD))
 //@   ensures [counts] implies(result1 == nil && a.keyPhase == old(a.keyPhase) && kp == 1 + a.keyPhase % 2, a.numRcvdWithCurrentKey == old(a.numRcvdWithCurrentKey) + 1)
 //@   modifies a.keyPhase, a.firstRcvdWithCurrentKey, a.firstSentWithCurrentKey, a.numRcvdWithCurrentKey, a.numSentWithCurrentKey, a.prevRcvAEAD, a.rcvAEAD, a.sendAEAD,
-//@            a.nextRcvTrafficSecret, a.nextSendTrafficSecret, a.nextRcvAEAD, a.nextSendAEAD, a.prevRcvAEADExpiry, a.nonceBuf[*]
+//@            a.nextRcvTrafficSecret, a.nextSendTrafficSecret, a.nextRcvAEAD, a.nextSendAEAD, a.prevRcvAEADExpiry, a.nonceBuf[*], dst[*]
 
 //@ func (a *updatableAEAD) Open
 //@   props C05
@@ -108,7 +118,7 @@ package handshake
 //@   ensures [highest-on-success] implies(result1 == nil, a.highestRcvdPN == max(old(a.highestRcvdPN), pn))
 //@   ensures [failure-keeps-phase] implies(result1 != nil, a.keyPhase == old(a.keyPhase))
 //@   modifies a.keyPhase, a.firstRcvdWithCurrentKey, a.firstSentWithCurrentKey, a.numRcvdWithCurrentKey, a.numSentWithCurrentKey, a.prevRcvAEAD, a.rcvAEAD, a.sendAEAD,
-//@            a.nextRcvTrafficSecret, a.nextSendTrafficSecret, a.nextRcvAEAD, a.nextSendAEAD, a.prevRcvAEADExpiry, a.nonceBuf[*], a.invalidPacketCount, a.highestRcvdPN
+//@            a.nextRcvTrafficSecret, a.nextSendTrafficSecret, a.nextRcvAEAD, a.nextSendAEAD, a.prevRcvAEADExpiry, a.nonceBuf[*], a.invalidPacketCount, a.highestRcvdPN, dst[*]
 
 //@ func (a *updatableAEAD) Seal
 //@   props C05
@@ -116,7 +126,7 @@ package handshake
 //@   ensures [first-sent] a.firstSentWithCurrentKey == ite(old(a.firstSentWithCurrentKey) == -1, pn, old(a.firstSentWithCurrentKey))
 //@   ensures [count] a.numSentWithCurrentKey == old(a.numSentWithCurrentKey) + 1
 //@   ensures [phase-kept] a.keyPhase == old(a.keyPhase)
-//@   modifies a.firstSentWithCurrentKey, a.firstPacketNumber, a.numSentWithCurrentKey, a.nonceBuf[*]
+//@   modifies a.firstSentWithCurrentKey, a.firstPacketNumber, a.numSentWithCurrentKey, a.nonceBuf[*], dst[*]
 
 //@ func (a *updatableAEAD) SetLargestAcked
 //@   props C05
